@@ -25,7 +25,7 @@ import numpy as np
 from . import tlc
 from .core import Ctx, MachineryError
 from .emis_common import balance, classify_exception, fuel_obj, load_emis_config, model, nonzero, synthetic_traj
-from .store_replay import pmap
+from .store_replay import fresh_map, pmap
 
 FIELDS = ['mode', 'co2', 'h2o', 'sox', 'nox', 'hc', 'co', 'pmvol', 'pmnvol', 'apu', 'gse', 'lifecycle']
 _real = {}
@@ -39,6 +39,24 @@ def real_traj():
 
         _real['traj'] = tb.LegacyBuilder(options=tb.Options(iterate_mass=False)).fly(model(), mission('BOS', 'ORD'))
     return _real['traj']
+
+
+CONSTANT_SPECIES = ('CO2', 'H2O', 'SOx', 'SO2', 'SO4')
+
+
+def run_session(sess):
+    """EmissionsSession.tla behaviour: the configurations of the session one after the
+    other in this (freshly forked) process."""
+    out = []
+    for k, case in enumerate(sess):
+        for key, desc in run_cfg((case, 'synthetic')):
+            if key == 'machinery':
+                return [(key, desc)]
+            before = [{f: c['cfg'][f] for f in ('mode', 'co2', 'h2o', 'sox')} for c in sess[:k]]
+            out.append((f'session:{key}', f'computation {k + 1} of a session (earlier in this process: {before}): {desc}'))
+        if out:
+            break
+    return out
 
 
 def run_cfg(job):
@@ -71,6 +89,12 @@ def run_cfg(job):
             devs.append((f'not-refused:{allowed[0][1]}', f'returned an inventory although method {allowed[0][1]} is not implemented; specification: refusal naming it, under {short}'))
         for k, d in balance(em, fuel, cfgd):
             devs.append((f'unbalanced:{k}', f'{d} under {short}'))
+        # a species the configuration enables is carried (decided for the constant-index species)
+        for name in case.get('on', []):
+            if name in CONSTANT_SPECIES and ('ok', '-') in allowed:
+                s = Species[name]
+                if s not in em.trajectory_indices or not nonzero(em.trajectory_indices[s]):
+                    devs.append((f'on-species-missing:{name}', f'{name} is enabled but the trajectory part has no (non-zero) index for it, under {short}'))
         for name in case['off']:
             s = Species[name]
             if s in em.trajectory_emissions and nonzero(em.trajectory_emissions[s]):
@@ -122,6 +146,7 @@ def run(ctx: Ctx):
     ctx.rule = (
         'configurations = the full Cartesian product of the documented option values (41 472, TLC-enumerated); quick: a greedy pairwise covering '
         'subset + all single-option deviations from the default + seeded random ones; thorough: all, on a synthetic and a simulated trajectory; '
+        'sessions: every ordered pair over the 16 switch settings of CO2/H2O/SOx/mode and random sessions of 4 configurations, each session in a freshly forked process; '
         'non-trivial = at least two options differ from the default'
     )
     ctx.assumptions += [
@@ -131,9 +156,36 @@ def run(ctx: Ctx):
     ]
     if ctx.replay:
         c = json.loads(Path(ctx.replay).read_text())['case']
+        if 'session' in c:
+            for key, desc in fresh_map(run_session, [c['session']])[0]:
+                ctx.violation(key, desc, c)
+            return
         for key, desc in run_cfg((c['case'], c['traj'])):
             ctx.violation(key, desc, c)
         return
+    # sessions: several configurations in one process (each session in a freshly forked process)
+    tlc.check(ctx, 'emissions/EmissionsSession', 'emissions/MC_EmissionsSession.cfg', workers=4)
+    neg = tlc.run('emissions/EmissionsSession', 'emissions/MC_EmissionsSession.cfg', sub={'Design = "per_call"': 'Design = "cached_constants"'}, workers=4)
+    if 'Invariant HistoryIndependent is violated' not in neg['out']:
+        raise MachineryError('negative control failed: constants cached per fuel should violate HistoryIndependent')
+    ctx.extra['negative_control'] = 'EmissionsSession with Design=cached_constants violates HistoryIndependent as expected'
+    sessions = tlc.check(ctx, 'emissions/EmissionsSession', 'emissions/Gen_EmissionsSession.cfg', workers=4)['emitted']
+    sessions += tlc.check(ctx, 'emissions/EmissionsSession', 'emissions/Sim_EmissionsSession.cfg', workers=1, simulate=f'num={150 if ctx.quick else 3000}', depth=8, seed=ctx.seed)['emitted']
+    # the harness-side objects (performance model with its engine data, fuel) are built once, before forking
+    load_emis_config({})
+    model(), fuel_obj()
+    ctx.log(f'running {len(sessions)} sessions of 2-4 configurations, each in a fresh process')
+    for sess, devs in zip(sessions, fresh_map(run_session, sessions)):
+        ctx.case_done(('session', [c['cfg'] for c in sess]), nontrivial=True)
+        if len(sess) > 2:
+            ctx.sample({'session': [c['cfg'] for c in sess]}, limit=1)
+        seen = set()
+        for key, desc in devs:
+            if key == 'machinery':
+                raise MachineryError('emissions session worker failed: ' + desc)
+            if key not in seen:
+                seen.add(key)
+                ctx.violation(key, desc, {'session': sess})
     tlc.check(ctx, 'emissions/EmissionsConfig', 'emissions/MC_EmissionsConfig.cfg', workers=8)
     cases = tlc.check(ctx, 'emissions/EmissionsConfigGen', 'emissions/Gen_EmissionsConfig.cfg', workers=4)['emitted']
     default = dict(mode='trajectory', co2=True, h2o=True, sox=True, nox='bffm2', hc='bffm2', co='bffm2', pmvol='fuel_flow', pmnvol='meem', apu=True, gse=True, lifecycle=True)
